@@ -84,47 +84,33 @@ def Ktensor.nvecsGram [Add α] [Mul α] [Zero α] (K : Ktensor α) (n : Nat) : E
     let An := K.factors.getD n []
     .ok (matMulT (matMulN An M R) An)
 
-/-- single-mode `tensor.ttm(matrix, n)`: permute mode `n` to the front, F-reshape to a
-matrix, `matrix @ ·`, F-reshape back, inverse permute. -/
-def Dense.ttm1 [Add α] [Mul α] [Zero α] (T : Dense α) (U : Mat α) (n : Nat) : Except Reject (Dense α) :=
-  let N := T.shape.length
-  if n ≥ N then .error .reject
-  else
-    let order := n :: complDims N [n]
-    match T.permute order with
-    | .error e => .error e
-    | .ok P =>
-      let sn := T.shape.getD n 0
-      let rest := gather T.shape (complDims N [n])
-      let second := numel rest
-      if U.any (fun row => row.length != sn) then .error .reject
-      else
-        -- newdata (sn × second), entry (l, c) = P.data[l + sn * c]; result column by column
-        let cols : Mat α := (List.range second).map fun c =>
-          U.map fun urow => dot urow ((List.range sn).map fun l => P.data.getD (l + sn * c) 0)
-        let Y : Dense α := ⟨U.length :: rest, cols.flatten⟩
-        .ok (Y.transpose (invPerm order))
-
-/-- `tensor.ttm([V_0, …, V_{N-1}])`: one mode after the other. -/
-def Dense.ttmAll [Add α] [Mul α] [Zero α] (T : Dense α) (Vs : List (Mat α)) : Except Reject (Dense α) :=
+/-- `tensor.ttm([V_0, …, V_{N-1}])` by its entry-wise meaning
+`Y[i] = Σ_l (∏_k V_k[i_k, l_k]) · T[l]` — the logical content of the loop "for every mode: permute,
+F-reshape, `matrix @ ·`, F-reshape, permute back" (that `tensor.ttm` computes this is property C02;
+here it is a primitive, like `@`).  The shape tests of the matrix products are kept. -/
+def Dense.ttmList [Add α] [Mul α] [Zero α] [One α] (T : Dense α) (Vs : List (Mat α)) : Except Reject (Dense α) :=
   if Vs.length != T.shape.length then .error .reject
-  else (List.range Vs.length).foldl
-    (fun acc k => match acc with
-      | .error e => .error e
-      | .ok Y => Y.ttm1 (Vs.getD k []) k) (.ok T)
+  else if (List.range Vs.length).any
+      (fun k => (Vs.getD k []).any fun row => row.length != T.shape.getD k 0) then .error .reject
+  else
+    .ok (Dense.ofFn (Vs.map List.length) fun i =>
+      ((allSubs T.shape).map fun l =>
+        (List.zipWith (fun (V : Mat α) (p : Nat × Nat) => V.get p.1 p.2) Vs (i.zip l)).prod * T.get l).sum)
+
+/-- the list `V` of `ttensor.nvecs`: `V_i = U_iᵀU_i` for `i ≠ n`, `V_n = U_n`. -/
+def Ttensor.nvecsVs [Add α] [Mul α] [Zero α] (T : Ttensor α) (n : Nat) : List (Mat α) :=
+  (List.range T.factors.length).map fun i =>
+    let U := T.factors.getD i []
+    if i == n then U else gramCols U (T.core.shape.getD i 0)
 
 /-- `ttensor.nvecs` (dense core):
-`V_i = U_iᵀU_i (i ≠ n), V_n = U_n; H = G.ttm(V);`
-`HnT = H.to_tenmat(cdims=[n]); GnT = G.to_tenmat(cdims=[n]);`
+`H = G.ttm(V); HnT = H.to_tenmat(cdims=[n]); GnT = G.to_tenmat(cdims=[n]);`
 `XnT = GnT @ U_n.T; Y = HnT.T @ XnT`. -/
-def Ttensor.nvecsGram [Add α] [Mul α] [Zero α] (T : Ttensor α) (n : Nat) : Except Reject (Mat α) :=
+def Ttensor.nvecsGram [Add α] [Mul α] [Zero α] [One α] (T : Ttensor α) (n : Nat) : Except Reject (Mat α) :=
   let N := T.factors.length
   if n ≥ N then .error .reject
   else
-    let Vs := (List.range N).map fun i =>
-      let U := T.factors.getD i []
-      if i == n then U else gramCols U (T.core.shape.getD i 0)
-    match T.core.ttmAll Vs with
+    match T.core.ttmList (T.nvecsVs n) with
     | .error e => .error e
     | .ok H =>
       match H.toTenmat none (some [n]) none, T.core.toTenmat none (some [n]) none with
@@ -227,7 +213,7 @@ def Ktensor.nvecs [Add α] [Mul α] [LT α] [DecidableLT α] [Neg α] [Zero α] 
     (K : Ktensor α) (n r : Nat) (flipsign : Bool) : Except Reject (Mat α) :=
   (K.nvecsGram n).map fun y => nvecsFromGram svc false y r flipsign
 
-def Ttensor.nvecs [Add α] [Mul α] [LT α] [DecidableLT α] [Neg α] [Zero α] (svc : EigService α)
+def Ttensor.nvecs [Add α] [Mul α] [LT α] [DecidableLT α] [Neg α] [Zero α] [One α] (svc : EigService α)
     (T : Ttensor α) (n r : Nat) (flipsign : Bool) : Except Reject (Mat α) :=
   (T.nvecsGram n).map fun y => nvecsFromGram svc false y r flipsign
 
